@@ -5,6 +5,10 @@ sys.path.insert(0, '/verif')
 from checks import CHECKS
 
 TEXT = {
+ 'C02': ('spec/RawSock.tla is one engine for all raw socket implementations (one action per lock region, channel operation and goroutine hand-off; PAIR: shared send queue pulled by the single peer\'s sender; PUSH: send queue + scheduler + ready-pipe queue with re-queue only after the send returned). TLC checks on it, for 2 sender threads, 2-3 peers, queue lengths 0/1/2, connect/disconnect at any point: every message handed to a transport was accepted (nothing invented), no message is handed twice (to at most one PULL peer), per-connection order is the send order, PAIR has at most one peer and refuses a second one without disturbing the first, a busy pipe is never scheduled, and NoStuckSend (at quiescence no Send is blocked while the queue is empty and a connected peer is idle). The real xpair / pair / xpair1 / pair1 / xpush / push / xpull / pull sockets are driven in a synctest bubble (harness = every peer, gated transport sends = slow peers, drops at any point, all queue lengths incl. 0) and each trace must be a behaviour of the engine with those invariants holding. PUSH with WriteQLen 0 is the recorded known finding (Send never completes).',
+         'DESIGN.md section 3 C02', 'TLA+ spec RawSock.tla + TLC exhaustive + TLC trace validation (conformance and property separately for the known finding)'),
+ 'C08': ('RawSock.tla in its broadcast instantiations: BUS offers a clone to every pipe except the origin named in the header and drops where the per-pipe queue is full; STAR additionally forwards every accepted incoming message (hop byte + 1) to all other pipes before handing a copy up. TLC checks for 2 pipes / 2 threads / all interleavings: each accepted message is handed at most once per pipe, never to the origin pipe (NoEcho, NoEchoStar), nothing invented, Recv returns each arrived message at most once in per-connection order. The real xbus / bus / xstar / star sockets are driven with the harness as all peers (fresh and forwarded sends, origins that are connected or gone, slow peers, hop bytes around the TTL, garbled headers) and every trace - which pipe each message is handed to, the hop byte written, the origin reported by raw Recv - must be a behaviour of the engine. Multi-socket topologies (meshes, trees) are composed from per-socket conformance: each member conforms to the engine whose invariants give once-per-peer / no-echo per hop.',
+         'DESIGN.md section 3 C08', 'TLA+ spec RawSock.tla (broadcast policies) + TLC exhaustive + TLC trace validation'),
  'C03': ('TLC explores every interleaving of Send / Recv / context close on up to 2 contexts and 2 client threads with replies of every kind (current, stale, foreign, without the request bit, duplicates, on any connection), pipe loss, timers and close on spec/Req.tla (one action per lock region of req.go) and checks that the id map is sound, a stored reply is the current one, every delivered reply was injected by a peer for the most recent request of that context and no request is answered twice; the real REQ socket is driven in a synctest bubble by a harness that plays the REP peers at transport level and crafts such replies; every recorded trace (API results with the reply tag, transmissions with id and digest, snapshots of ctxByID / per-context fields / sendQ / readyQ at every quiescence) must be a behaviour of Req.tla.',
          'DESIGN.md section 3 C03', 'TLA+ spec Req.tla + TLC exhaustive + TLC trace validation with state snapshots'),
  'C04': ('Same specification; the properties are NoDeadDispatch (nothing handed to a pipe once answered / cancelled / closed), retries-disabled-never-resends, one pipe per transmission, and on traces: every transmission must be explained by the first send, a loss of the carrying pipe or a resend timer armed exactly one retry interval earlier (exact virtual time, never sooner, and - through the quiescence lines - never later), with byte-identical digests; scenarios are a fault enumeration (drop / new connection / slow peer / cancel / close / time just before and at the retry instant injected at every prefix of a base scenario) plus seeded random ones.',
@@ -23,6 +27,8 @@ TEXT = {
          'DESIGN.md section 3 C14', 'TLA+ spec Core.tla + TLC exhaustive + TLC trace validation with exact virtual timestamps'),
 }
 NOTES = {
+ 'C02': 'trusted: TLC, synctest, virtual transport/recorder; liveness is decided as a state predicate at quiescence (NoStuckSend), not by a temporal check; queue resizing is outside this property (the statement says queue sizes are left alone)',
+ 'C08': 'trusted: TLC, synctest, virtual transport/recorder; end-to-end exactly-once over a loop-free multi-member topology is inferred from per-member conformance, it is not replayed as one multi-socket trace',
  'C07': 'trusted: TLC, synctest virtual time, virtual transport/recorder, SURVEYOR snapshot accessor; a Recv is bound to the survey that is current when it is called (as the code does); responses to the old survey that arrive before its asynchronous cancel ran can still reach a Recv that was already waiting on it',
  'C06': 'trusted: TLC, synctest, virtual transport/recorder, SUB snapshot accessor; the PUB side (every message to every connected subscriber, queue space permitting) is decided by the broadcast specification used for C08, see DESIGN.md',
  'C05': 'trusted: TLC, synctest, virtual transport/recorder, the REP/RESPONDENT snapshot accessors; raw XREP/XRESPONDENT routing and device chains are covered by the raw-socket checks, not here',
